@@ -273,6 +273,32 @@ def run(ctx):
     # ---------------- no holes ----------------
     must_checks(C, P)
 
+    # every '&' of a text is decoded or reported: from the point where unescape_string found an ampersand, no path reaches the next
+    # round of the loop or leaves the loop without a decoded character having been pushed or optional_error having been called
+    from pairing import calls
+    un = P.get('ArxmlParser::unescape_string')
+    fnd = [p_ for p_ in calls(un, r'<impl str>::find$|str>::find$') if any(p_[0] in body for h, body in un.natural_loops())]
+    oka = False
+    from flow import switch_edges_on_call_result, must_pass as _mp
+    loops_u = un.natural_loops()
+    if fnd and loops_u:
+        h, body = max(loops_u, key=lambda x: len(x[1]))
+        hdr_find = [p_ for p_ in fnd if p_[0] == h or un.pos_dominates(p_, (h, 0)) or True]
+        # the find whose result is the loop condition: its Some edge stays in the loop, its None edge leaves it
+        for p_ in fnd:
+            sw = switch_edges_on_call_result(un, p_)
+            if not sw:
+                continue
+            some_t, none_t = sw[1].get('1', sw[2]), sw[1].get('0', sw[2])
+            if some_t in body and none_t not in body:
+                through = set(calls(un, r'String::push$')) | set(calls(un, r'ArxmlParser.*::optional_error$'))
+                back = [(bi, un.nstmts(bi)) for bi in body if h in un.succs(bi)]
+                exits = [(sx, 0) for bi in body for sx in un.succs(bi) if sx not in body and not un.blocks[sx]['cleanup'] and bi != p_[0] and sx != none_t]
+                import panics as _PN
+                reached = _PN.flag_reach(un, (some_t, 0), through, within=body)
+                oka = bool(through) and not any(t_ in reached for t_ in [(h, 0)] + exits)
+    C.check(oka, 'C08-MUST-checks', 'unescape_string|every-ampersand-decoded-or-reported', 'unescape_string can pass over an ampersand without decoding it and without reporting InvalidXmlEntity (e.g. an early exit when no ";" follows): malformed entities are accepted by strict loading and give no warning in lenient loading',
+            '%s:%d' % (un.file, un.line), sample={'fn': 'unescape_string', 'per_ampersand': 'push(decoded char) or optional_error(InvalidXmlEntity)'})
     # the mask accessor the validator relies on reads the mask of the element it was asked about (shared with C18-SIB-listing)
     from c18 import version_base_rule
     version_base_rule(C, P, 'C08-MUST-checks')
